@@ -166,7 +166,32 @@ def explore(driver, on_leaf=None, bound=None, root=(), float_policy=None, max_ex
     seen_keys = set()
     while stack:
         p = stack.pop()
-        run, result, viol = execute(driver, p, float_policy, check_ownership, default_last)
+        try:
+            run, result, viol = execute(driver, p, float_policy, check_ownership, default_last)
+        except ReplayDivergence as div:
+            # The same prefix produced a different choice arity. The harness builds fresh objects for every execution, so
+            # this means state survives between independently constructed objects. Confirm with two back-to-back base
+            # executions: if their sequences of choice points differ, the library keeps hidden shared state (module- or
+            # class-level defaults / caches) - reported as a violation; otherwise it is harness trouble.
+            shapes = []
+            for _ in range(3):
+                try:
+                    r2, _, _ = execute(driver, (), float_policy, False, default_last)
+                    shapes.append(tuple((t[0], t[3]) for t in r2.trace))
+                except ReplayDivergence:
+                    shapes.append(None)
+            if st.violations:
+                st.truncated = True     # violations already found in this tree explain the inconsistency: report those
+                return st
+            if len(set(shapes)) > 1:
+                st.violations.append((f"{CURRENT_PID[0]}/hidden-shared-state",
+                                      f"independently constructed objects are not independent: repeating the very same "
+                                      f"scenario on fresh objects in one process changes the sequence / range of the "
+                                      f"library's random draws ({div}); the library keeps state across objects "
+                                      f"(module- or class-level default / cache)", {}, tuple(p)))
+                st.truncated = True
+                return st
+            raise
         st.executions += 1
         st.unscripted += run.unscripted
         tr = run.trace
@@ -186,7 +211,7 @@ def explore(driver, on_leaf=None, bound=None, root=(), float_policy=None, max_ex
         # children
         dev = 0
         if bound is not None:
-            for j in range(len(p)):
+            for j in range(min(len(p), len(tr))):      # (a violation may have cut the execution short)
                 if p[j] != ((tr[j][0] - 1) if (default_last and tr[j][2] and not tr[j][5]) else 0):
                     dev += tr[j][2]
         base = run.choices()
@@ -251,6 +276,8 @@ _TASKS = None
 def _call(i):
     try:
         return ('ok', _FUNC(_TASKS[i]))
+    except ReplayDivergence as e:
+        return ('div', f"task {i}: {e}")
     except BaseException as e:  # harness trouble inside a worker
         return ('err', f"{type(e).__name__}: {e}\n{traceback.format_exc()}")
 
@@ -273,11 +300,23 @@ def pmap(func, tasks, chunksize=1):
                 out = pool.map(_call, range(len(tasks)), chunksize)
     finally:
         _FUNC, _TASKS = None, None
-    res = []
+    res, divs = [], []
     for kind, val in out:
         if kind == 'err':
             raise HarnessError("worker failed:\n" + val)
-        res.append(val)
+        if kind == 'div':
+            divs.append(val)
+        else:
+            res.append(val)
+    if divs:
+        # A replay divergence in some task: executions are not independent of each other. If other tasks of this very run
+        # found violations, hidden state shared between library objects is the consequence of those defects (they are what
+        # gets reported); without any violation it is harness trouble.
+        if any(isinstance(r, dict) and r.get('violations') for r in res):
+            print(f"note: {len(divs)} task(s) dropped after a replay divergence (library objects share state across "
+                  f"executions); first: {divs[0]}")
+        else:
+            raise HarnessError("replay divergence without any violation:\n" + "\n".join(divs[:3]))
     return res
 
 
